@@ -214,15 +214,44 @@ func (c *Copier) CopyReference(obj Reference) (Reference, error) {
 	if ok {
 		return newRef, nil
 	}
-	newRef = c.w.Alloc()
-	c.trans[obj] = newRef
 
-	val, err := Resolve(c.r, obj)
+	val, path, err := resolvePath(c.r, nil, obj, true)
 	if IsReadError(err) {
 		return 0, err
 	}
 	// a reference to a malformed or undefined source object resolves to
 	// null (PDF 2.0, 7.3.10); leave val nil and copy null in its place
+
+	// The object may also be reachable through the later references of the
+	// chain which was just followed (obj -> r2 -> ... -> object).  All of
+	// them must translate to the same target object, or the object would be
+	// copied once per entry point.
+	chain := []Reference{obj}
+	if err == nil {
+		chain = chain[:0]
+		for p := path; p != nil; p = p.Parent {
+			chain = append(chain, p.Ref)
+		}
+		// path lists the references last-to-first; put obj first
+		for i, j := 0, len(chain)-1; i < j; i, j = i+1, j-1 {
+			chain[i], chain[j] = chain[j], chain[i]
+		}
+	}
+	for i, ref := range chain {
+		if existing, ok := c.trans[ref]; ok {
+			// everything in front of ref leads to it
+			for _, r2 := range chain[:i] {
+				c.trans[r2] = existing
+			}
+			return existing, nil
+		}
+	}
+
+	newRef = c.w.Alloc()
+	for _, ref := range chain {
+		c.trans[ref] = newRef
+	}
+
 	trans, err := c.Copy(val)
 	if err != nil {
 		return 0, err
